@@ -23,7 +23,7 @@ func init() {
 			return evid.Spec{ID: "C03", Level: "exploration", Exhaustive: true,
 				Rule: "product of secrets x session ids x versions x sequence numbers x flag octets x body lengths (see coverage.alphabet); each case runs four directions on the real code: " +
 					"server reads (handler must see the cleartext and the untouched header), server writes (raw bytes on the scripted connection must equal cleartext XOR reference pad), " +
-					"Client.Send writes, Client.Send reads. distinct_nontrivial counts distinct (direction, secret, session, version, seq, flags, length) tuples whose body is non-empty. Plus (engine E2) two connections exchanging obfuscated packets concurrently under the controlled scheduler, every schedule with <= 1 (quick) / 2 (thorough) deviations",
+					"Client.Send writes, Client.Send reads; plus the server's own key-mismatch reply provoked three times in a row per (secret, type, version, seq{1,3,253}): each raw reply must be one and the same ERROR cleartext XOR the reference pad of its header. distinct_nontrivial counts distinct (direction, secret, session, version, seq, flags, length) tuples whose body is non-empty. Plus (engine E2) two connections exchanging obfuscated packets concurrently under the controlled scheduler, every schedule with <= 1 (quick) / 2 (thorough) deviations",
 				Assumptions: []string{"mc/ref/pad.go restates RFC 8907 section 4.5 on top of Go's crypto/md5",
 					"bodies are shaped like an authentication REPLY so that the receiver's key-mismatch heuristic lets them through; their variable part is position-dependent bytes"},
 				Extra: map[string]interface{}{"alphabet": c03Alphabet(tier == "quick")}}
@@ -49,6 +49,9 @@ type c03Case struct {
 	Seq     byte   `json:"seq"`
 	Flags   byte   `json:"flags"`
 	N       int    `json:"body_len"`
+	// Signal > 0: the case is the server's own key-mismatch reply, provoked Signal times in a row (Type is the packet type)
+	Signal int  `json:"signal,omitempty"`
+	Type   byte `json:"type,omitempty"`
 }
 
 func c03Secrets() [][]byte {
@@ -233,8 +236,68 @@ func c03Dense(c *Ctx) {
 	}
 }
 
+// c03Signal: the one reply the server originates itself - the error packet that answers a key mismatch - is obfuscated like
+// any other body: provoked several times in a row in one process, every raw reply is (one and the same error cleartext)
+// XOR (reference pad of the reply's own header under the server's key).
+func c03Signal(c *Ctx, key []byte, cs c03Case) {
+	c.R.Eval()
+	c.Cur(cs)
+	fail := func(what string) {
+		c.R.Violate("server-signal/"+firstWord(what), fmt.Sprintf("server key-mismatch reply: %s; case %+v", what, cs), cs)
+	}
+	var first []byte
+	for i := 0; i < cs.Signal; i++ {
+		srv, err := newC03Server(key)
+		if err != nil {
+			c.Abort("hang", err.Error(), cs)
+		}
+		h := ref.Header{Version: cs.Version, Type: cs.Type, Seq: cs.Seq, Session: cs.Session + uint32(i)}
+		_, err = srv.w.Deliver(srv.conn, ref.Packet(h, key, []byte{0xff, 0xff, 0xff, 0xff, 0xff, 0xff, 0xff, 0xff, 0xff}))
+		out := srv.conn.Take()
+		srv.w.Stop()
+		if err != nil {
+			c.Abort("hang", err.Error(), cs)
+		}
+		pk, rest := srvx.ParseStream(out)
+		if len(pk) != 1 || len(rest) != 0 {
+			return // whether and how a mismatch is signalled is C19's business; here only the obfuscation of what is sent
+		}
+		clear := ref.Obfuscate(pk[0].H, key, pk[0].Body)
+		if pk[0].H.Flags&1 != 0 {
+			clear = pk[0].Body
+		}
+		if m, cl := replyLayout[cs.Type].Decode(clear); cl != ref.Exact || m.N["status"] != errorStatus[cs.Type] {
+			fail(fmt.Sprintf("reply %d of %d is not (an ERROR reply of type %d) XOR (the pad of its header %+v under the server's key): deobfuscated %s", i+1, cs.Signal, cs.Type, pk[0].H, hx(clear)))
+			return
+		}
+		if i == 0 {
+			first = clear
+		} else if !bytes.Equal(first, clear) {
+			fail(fmt.Sprintf("reply %d deobfuscates to %s, the first one to %s", i+1, hx(clear), hx(first)))
+			return
+		}
+	}
+	c.R.Distinct(evid.Hash("signal", cs))
+}
+
 func c03Run(c *Ctx) {
 	c03SecretSweep(c)
+	{
+		i := 0
+		for _, key := range c03Secrets() {
+			for _, typ := range []byte{1, 2, 3} {
+				for _, ver := range []byte{0xc0, 0xc1} {
+					i++
+					if !c.Mine(i) {
+						continue
+					}
+					for _, seq := range []byte{1, 3, 253} {
+						c03Signal(c, key, c03Case{Secret: fmt.Sprintf("%x", key), Session: 0x51600000, Version: ver, Seq: seq, Type: typ, Signal: 3})
+					}
+				}
+			}
+		}
+	}
 	if !c.Quick {
 		c03Dense(c)
 	}
@@ -454,6 +517,10 @@ func c03Replay(c *Ctx, raw json.RawMessage) {
 	}
 	var key []byte
 	fmt.Sscanf(cs.Secret, "%x", &key)
+	if cs.Signal > 0 {
+		c03Signal(c, key, cs)
+		return
+	}
 	if cs.Seq%2 == 1 {
 		srv, err := newC03Server(key)
 		if err == nil {
